@@ -843,32 +843,86 @@ func ruleC02Scanner(c *Ctx) {
 	// the counting loop of uniqueIndexScanner.ScanCursor advances with nextUnpaged, never with the paged Next
 	sc := p.SSAFunc(p.Method("boltz", "uniqueIndexScanner", "ScanCursor"))
 	c.Analysed(FnName(sc))
-	next := p.Method("boltz", "uniqueIndexScanner", "Next")
-	unp := p.Method("boltz", "uniqueIndexScanner", "nextUnpaged")
-	usesNext, usesUnpaged := false, false
-	for _, call := range callsIn(sc) {
-		if isCallTo(call, next) {
-			usesNext = true
-		}
-		if isCallTo(call, unp) {
-			usesUnpaged = true
-		}
-	}
-	c.Check(!usesNext && usesUnpaged, "C02.COUNT", FnName(sc)+": unpaged step", p.Pos(sc.Pos()), "the counting scan advances with nextUnpaged only", "the counting scan uses the paged Next(), which stops at the limit: the total would be truncated")
-	// nextUnpaged has no comparison with paging values
-	un := p.SSAFunc(unp)
+	// stated on roles, not on helper names: the calls inside the counting loop that advance the cursor
+	// (callees that may invoke Next on a set cursor) never read a paging value — a paged step stops at
+	// the limit and the total would be truncated
 	limitF, offsetF := pagingFields(c, "boltz")
-	clean := true
-	for _, b := range un.Blocks {
+	isPagingLoad := func(in ssa.Instruction) bool {
+		u, ok := in.(*ssa.UnOp)
+		if !ok || u.Op != token.MUL {
+			return false
+		}
+		f, _ := loadedField(u)
+		return f != nil && (sameVar(f, limitF) || sameVar(f, offsetF) || f.Name() == "collected")
+	}
+	cg := p.CallGraph()
+	advances := cg.Summarize(func(in ssa.Instruction) bool {
+		call, ok := in.(ssa.CallInstruction)
+		return ok && call.Common().IsInvoke() && call.Common().Method.Name() == "Next" && len(call.Common().Args) == 0
+	})
+	loops := loopsOf(sc)
+	var countLoop *Loop
+	for _, b := range sc.Blocks {
 		for _, in := range b.Instrs {
-			if u, ok := in.(*ssa.UnOp); ok {
-				if f, _ := loadedField(u); f != nil && (sameVar(f, limitF) || sameVar(f, offsetF) || f.Name() == "collected" || f.Name() == "offset") {
-					clean = false
+			if bo, ok := in.(*ssa.BinOp); ok && bo.Op == token.ADD {
+				if k, isK := bo.Y.(*ssa.Const); isK && k.Value != nil && k.Value.ExactString() == "1" && types.Identical(bo.Type().Underlying(), types.Typ[types.Int64]) {
+					if l := innermostLoop(loops, b); l != nil {
+						countLoop = l
+					}
 				}
 			}
 		}
 	}
-	c.Check(clean, "C02.COUNT", FnName(un), p.Pos(un.Pos()), "the unpaged step never reads a paging value", "the unpaged step reads a paging value")
+	okCount, whyCount := countLoop != nil, "no counting loop found in the scan"
+	nSteps := 0
+	if okCount {
+		for b := range countLoop.Blocks {
+			for _, in := range b.Instrs {
+				call, ok := in.(ssa.CallInstruction)
+				if !ok || call.Common().IsInvoke() {
+					continue
+				}
+				adv, _ := advances.CallMay(call.Common())
+				if !adv {
+					continue
+				}
+				nSteps++
+				// through static calls only: the step's own code (dynamic dispatch into cursors is the
+				// wrapped cursor's business, not the step's)
+				var readsStatic func(f *ssa.Function, depth int) bool
+				seenF := map[*ssa.Function]bool{}
+				readsStatic = func(f *ssa.Function, depth int) bool {
+					if f == nil || f.Blocks == nil || seenF[f] || depth > 4 {
+						return false
+					}
+					seenF[f] = true
+					for _, bb := range f.Blocks {
+						for _, i2 := range bb.Instrs {
+							if isPagingLoad(i2) {
+								return true
+							}
+							if k, isCall := i2.(ssa.CallInstruction); isCall && !k.Common().IsInvoke() {
+								if readsStatic(k.Common().StaticCallee(), depth+1) {
+									return true
+								}
+							}
+						}
+					}
+					return false
+				}
+				if readsStatic(call.Common().StaticCallee(), 0) {
+					okCount, whyCount = false, "the counting scan advances with a step that reads paging values ("+describeInstr(call)+"): it stops at the limit, so the total would be truncated"
+				}
+			}
+		}
+		if nSteps == 0 {
+			c.Undecided("C02.COUNT", FnName(sc)+": unpaged step", p.Pos(sc.Pos()), "the cursor is advanced inside the counting loop itself: cannot separate the step from the page bookkeeping")
+			okCount = true
+		}
+	}
+	if nSteps > 0 || !okCount {
+		c.Check(okCount, "C02.COUNT", FnName(sc)+": unpaged step", p.Pos(sc.Pos()), "the step that advances the cursor inside the counting loop reads no paging value, directly or in a callee", whyCount)
+	}
 	// NewScanner: id order -> uniqueIndexScanner with matching direction, otherwise sortingScanner
 	ns := p.SSAFunc(p.Method("boltz", "BaseStore", "NewScanner"))
 	c.Analysed(FnName(ns))
